@@ -30,6 +30,13 @@ they are on disk). goderive is run twice in a row; both invocations are compared
 package's functions; an unnamed package gets no file), the second run must leave the bytes of the first, and the result
 of the first must type-check (`go vet ./...`).
 
+Third family (moved.json): a module of two packages (. and ./lib), each with a chain; v1 is generated with `goderive
+./...`; in v2 lib's declarations and calls have moved into the root package and lib's only source file is deleted, its
+derived.gen.go stays behind; `goderive ./...` again. The model says `regen [] old = removed` for ./lib
+(`regen_removes_when_empty`) and what the root package leaves (op `regen` with the v1 file as the old one); checked on the
+implementation: lib/derived.gen.go is gone, the root's file is the from-scratch one, `go build ./...` passes, a further
+run changes nothing.
+
 Verdicts:
   * the implementation's result with the old file differs from its own from-scratch result and the model does not
     predict exactly these two outcomes (where the driver says `agree=1` the hypotheses of Props/C07 `regen_congr` /
@@ -525,6 +532,136 @@ def run_multi(rep, scs, binp, root, table, num, pool, drvbin, stats):
     stats["goderive_runs"] += 2 * len(scs)
 
 
+# ---------------------------------------------------------------- a package left with nothing but its derived.gen.go
+
+
+def prepare_moved(mv, binp, root):
+    """v1 (root + ./lib) -> goderive ./... ; v2 (everything in the root, lib's source file deleted, its derived.gen.go
+    left behind) -> goderive ./... ; v2 from scratch; go build ./... of what the history left."""
+    d = os.path.join(root, mv["id"])
+    shutil.rmtree(d, ignore_errors=True)
+    os.makedirs(os.path.join(d, "lib"))
+    open(os.path.join(d, "go.mod"), "w").write(GOMOD)
+    for n, src in mv["v1_root"]["files"].items():
+        open(os.path.join(d, n), "w").write(src)
+    for n, src in mv["v1_lib"]["files"].items():
+        open(os.path.join(d, "lib", n), "w").write(src)
+
+    def state():
+        out = {}
+        for k, fp in (("root", os.path.join(d, "derived.gen.go")), ("lib", os.path.join(d, "lib", "derived.gen.go"))):
+            out[k] = open(fp).read() if os.path.exists(fp) else None
+        return out
+
+    def run():
+        rc, err, to = common.run_goderive(binp, d, ["./..."], timeout=180, mem_gb=4)
+        return message_kind(rc, err), state(), err[-400:], to or "panic:" in err or "goroutine " in err
+    r1 = run()
+    for n in mv["v1_lib"]["files"]:
+        os.remove(os.path.join(d, "lib", n))
+    for n, src in mv["v2_root"]["files"].items():
+        open(os.path.join(d, n), "w").write(src)
+    r2 = run()
+    p = common.sh(["go", "build", "./..."], cwd=d, timeout=600)
+    build = (p.returncode == 0, (p.stderr.strip().splitlines() or [""])[-1][:200])
+    r3 = run()      # once more: does a further run change anything?
+    shutil.rmtree(d, ignore_errors=True)
+    ds = os.path.join(root, mv["id"] + "s")
+    write_pkg(ds, mv["v2_root"]["files"])
+    scratch = run_real(binp, ds)
+    shutil.rmtree(ds, ignore_errors=True)
+    return r1, r2, build, r3, scratch
+
+
+def run_moved(rep, mvs, binp, root, table, num, pool, drvbin, stats):
+    runs = list(pool.map(lambda mv: prepare_moved(mv, binp, root), mvs))
+    st = stats["moved"] = {"scenarios": len(mvs), "v1_generated_both_files": 0, "lib_file_removed": 0, "root_as_from_scratch": 0,
+                           "builds": 0, "model_runs_compared": 0}
+    jobs = []
+    for mv, (r1, r2, build, r3, scratch) in zip(mvs, runs):
+        olds = parse_sigs(r1[1]["root"] or "")
+        jobs.append((mv["v2_root"]["calls"], olds))
+    for _ in range(12):
+        missing = set()
+        for calls, olds in jobs:
+            missing |= closure_keys(calls, olds, table)[1]
+        if not missing:
+            break
+        table.fill(missing, pool)
+    else:
+        raise common.CheckError("regen tie: the plugin table does not close (moved)")
+    lines, meta = [], []
+    for i, (mv, (r1, r2, build, r3, scratch), (calls, olds)) in enumerate(zip(mvs, runs, jobs)):
+        if r1[0] != "ok" or r1[1]["lib"] is None:
+            continue          # v1 is not a package pair with two generated files: not this history
+        st["v1_generated_both_files"] += 1
+        libold = parse_sigs(r1[1]["lib"])
+        names, texts = {}, {}
+        for nm in sorted({c["name"] for c in calls} | {a["r"] for c in calls for a in c["args"] if a.get("r")} | {n for n, _ in olds} | {n for n, _ in libold}):
+            names[nm] = len(names)
+        for t in sorted({c["text"] for c in calls}):
+            texts[t] = len(texts)
+        enc, odd = encode(calls, olds, table, num, names, texts)
+        if odd:
+            stats["skipped_odd_rows"] += 1
+            continue
+        lines.append("op %d regen %s" % (len(lines) + 1, enc))
+        lines.append("op %d regen () () (%s)" % (len(lines) + 1, " ".join("(%d %d)" % (names[n], num.ty(r)) for n, r in libold)))
+        meta.append((i, names, {c["name"] for c in calls}))
+    drv = common.sh([drvbin], input="\n".join(lines) + "\n", timeout=3600, env=dict(os.environ))
+    answers = drv.stdout.splitlines()
+    if drv.returncode != 0 or len(answers) != len(lines):
+        raise common.CheckError("model driver failed on the regen ops of the moved-package histories: %s" % drv.stderr[-500:])
+    for j, (i, names, universe) in enumerate(meta):
+        mv, (r1, r2, build, r3, scratch) = mvs[i], runs[i]
+        ma = re.match(r"^\d+ model=(\S+) scratch=(\S+) agree=([01])$", answers[2 * j])
+        mb = re.match(r"^\d+ model=(\S+) scratch=(\S+) agree=([01])$", answers[2 * j + 1])
+        if not ma or not mb:
+            raise common.CheckError("model driver rejected a regen op of history %s: %s | %s" % (mv["id"], answers[2 * j][:200], answers[2 * j + 1][:200]))
+        st["model_runs_compared"] += 3
+        replay = {"scenario": mv, "tie": "regen", "which": "moved", "op": lines[2 * j], "model": answers[2 * j]}
+        if r2[3] or scratch[3]:
+            rep.violation("goderive crashed or hung on history %s" % mv["id"], replay, True)
+            continue
+        i_root = impl_outcome((r2[0], r2[1]["root"], "", False), universe, names, num)
+        i_scr = impl_outcome(scratch, universe, names, num)
+        m_root, m_scr, m_lib = ma.group(1), ma.group(2), mb.group(1)
+        bad = []
+        # the property: no derive call remains in ./lib => its derived.gen.go is removed (model: regen [] old = ok:none);
+        # the root's file is the from-scratch one; the module builds; a further run changes nothing
+        if m_lib != "ok:none":
+            raise common.CheckError("model: regen on no calls is not `removed`: %s" % m_lib)
+        if r2[0] == "ok" and r2[1]["lib"] is not None:
+            bad.append("no derive call remains in ./lib (every source file is gone), but lib/derived.gen.go is still there after goderive ./... "
+                       "(model: removed)")
+        else:
+            st["lib_file_removed"] += 1
+        predicted = i_root == m_root and i_scr == m_scr
+        if r2[0] == "ok" and scratch[0] == "ok" and i_root == i_scr and r2[1]["root"] != scratch[1]:
+            bad.append("./derived.gen.go after the history has the functions of the from-scratch file and other bytes")
+        elif i_root != i_scr and not predicted:
+            bad.append("./derived.gen.go after the history: %s, from scratch: %s (model: %s / %s)" % (i_root, i_scr, m_root, m_scr))
+        else:
+            st["root_as_from_scratch"] += 1 if i_root == i_scr else 0
+        if r2[0] == "ok" and i_root == i_scr and not build[0]:
+            bad.append("go build ./... fails after the run: %s" % build[1])
+        else:
+            st["builds"] += 1 if build[0] else 0
+        if r2[0] == "ok" and (r3[0] != "ok" or r3[1] != r2[1]) and not bad:
+            bad.append("a further goderive ./... changes the files again")
+        if bad:
+            rep.violation("regen history %s (v1: packages . and ./lib with derive calls; v2: lib's declarations and calls moved into ., "
+                          "lib's only source file deleted; goderive ./...): %s" % (mv["id"], "; ".join(bad)),
+                          dict(replay, stderr=r2[2]), True)
+        elif not predicted:
+            rep.violation("correspondence G/Reload.regen: history %s: root package with the v1 file: goderive %s, model %s; from scratch: goderive %s, model %s" % (
+                mv["id"], i_root, m_root, i_scr, m_scr), dict(replay, stderr=r2[2]), False)
+        if len(rep.violations) > 10:
+            break
+    stats["model_runs_compared"] += st["model_runs_compared"]
+    stats["goderive_runs"] += 4 * len(mvs)
+
+
 # ---------------------------------------------------------------- the tie
 
 
@@ -692,6 +829,11 @@ def run(rep, n=None):
         if multis:
             with ThreadPoolExecutor(max_workers=12) as pool:
                 run_multi(rep, multis, binp, root, table, num, pool, drvbin, stats)
+            stats["probe_rows"] = len(table.rows)
+        mvs = json.load(open(os.path.join(root, "moved.json"))) if os.path.exists(os.path.join(root, "moved.json")) else []
+        if mvs:
+            with ThreadPoolExecutor(max_workers=12) as pool:
+                run_moved(rep, mvs, binp, root, table, num, pool, drvbin, stats)
             stats["probe_rows"] = len(table.rows)
         if f7:
             rep.known.append("F7: %d regen scenarios with a stale flowing signature differ from from-scratch exactly as G/Reload.regen predicts, e.g. %s" % (f7, f7_example))
